@@ -13,6 +13,8 @@ import (
 	"strings"
 	"time"
 
+	"math/big"
+
 	"govc/smt"
 	"govc/spec"
 	"govc/sx"
@@ -246,6 +248,25 @@ func Replay(opt Options, path string) (string, string) {
 				continue
 			}
 			cl.Raw = raw
+			// the code reads this cell through std.Deserialize or as an integer: the model's value of that view is what
+			// has to be stored (the raw bytes of the model are an arbitrary name for it)
+			for t2, v2 := range c.Model {
+				if strings.HasPrefix(t2, "(deser_") && strings.Contains(t2, "(val "+term+")") && strings.Count(t2, "(select store0 ") <= 2 {
+					if sv, err := sx.Parse(v2); err == nil && len(sv) == 1 {
+						if enc, ok := encodeVMItem(sx.ExpandLets(sv[0])); ok {
+							cl.Raw = enc
+						}
+					}
+				}
+			}
+			if v2, ok := c.Model["(b2i (val "+term+"))"]; ok {
+				if iv, err := sx.Parse(v2); err == nil && len(iv) == 1 {
+					if n, ok := intOfTerm(iv[0]); ok {
+						bi, _ := new(big.Int).SetString(n, 10)
+						cl.Raw = minimalLEBytes(bi)
+					}
+				}
+			}
 		} else {
 			continue
 		}
@@ -671,4 +692,134 @@ func evalOnObservation(opt Options, c *replayCase, args []rarg, cells []rcell, o
 		return "not-reproduced", "on the real VM this input halts and the observed execution does not refute the clause with the model's witnesses (the counterexample depends on an abstraction: callee contract, loop cut or unconstrained cell)"
 	}
 	return "not-reproduced", "the clause could not be decided on the observation (" + res.Status + ")"
+}
+
+func minimalLEBytes(v *big.Int) []byte {
+	if v.Sign() == 0 {
+		return []byte{}
+	}
+	for n := 1; n <= 33; n++ {
+		lim := new(big.Int).Lsh(big.NewInt(1), uint(8*n-1))
+		if v.Cmp(lim) < 0 && v.Cmp(new(big.Int).Neg(lim)) >= 0 {
+			x := new(big.Int).Set(v)
+			if x.Sign() < 0 {
+				x.Add(x, new(big.Int).Lsh(big.NewInt(1), uint(8*n)))
+			}
+			be := x.Bytes()
+			out := make([]byte, n)
+			for i := range be {
+				out[len(be)-1-i] = be[i]
+			}
+			return out
+		}
+	}
+	return nil
+}
+
+func varUint(n int) []byte {
+	if n < 0xfd {
+		return []byte{byte(n)}
+	}
+	return []byte{0xfd, byte(n), byte(n >> 8)}
+}
+
+// arrayElems decodes an SMT array value (nested stores over a constant array) into its first n elements.
+func arrayElems(t *sx.T, n int) ([]*sx.T, bool) {
+	elems := make([]*sx.T, n)
+	for t.Head() == "store" && len(t.L) == 4 {
+		if is, ok := intOfTerm(t.L[2]); ok {
+			var i int
+			fmt.Sscanf(is, "%d", &i)
+			if i >= 0 && i < n && elems[i] == nil {
+				elems[i] = t.L[3]
+			}
+		}
+		t = t.L[1]
+	}
+	var def *sx.T
+	if len(t.L) == 2 && !t.L[0].IsAtom() && t.L[0].Head() == "as" { // ((as const (Array ..)) d)
+		def = t.L[1]
+	}
+	for i := range elems {
+		if elems[i] == nil {
+			if def == nil {
+				return nil, false
+			}
+			elems[i] = def
+		}
+	}
+	return elems, true
+}
+
+// encodeVMItem serialises a model value (integer, boolean, nullable bytes, list, struct) in the NeoVM binary format.
+func encodeVMItem(t *sx.T) ([]byte, bool) {
+	if n, ok := intOfTerm(t); ok {
+		bi, _ := new(big.Int).SetString(n, 10)
+		b := minimalLEBytes(bi)
+		return append(append([]byte{0x21}, varUint(len(b))...), b...), true
+	}
+	if t.IsAtom() {
+		switch t.A {
+		case "true":
+			return []byte{0x20, 1}, true
+		case "false":
+			return []byte{0x20, 0}, true
+		case "AnyNull":
+			return []byte{0x00}, true
+		case "MapEmpty":
+			return []byte{0x48, 0}, true
+		}
+		return nil, false
+	}
+	h := t.Head()
+	switch {
+	case h == "mkNB":
+		if t.L[1].A == "true" {
+			return []byte{0x00}, true
+		}
+		b, ok := decodeSMTString(t.L[2].A)
+		if !ok {
+			return nil, false
+		}
+		return append(append([]byte{0x28}, varUint(len(b))...), b...), true
+	case strings.HasPrefix(h, "mkL_") && len(t.L) == 4:
+		if t.L[1].A == "true" {
+			return []byte{0x00}, true
+		}
+		ns, ok := intOfTerm(t.L[2])
+		if !ok {
+			return nil, false
+		}
+		var n int
+		fmt.Sscanf(ns, "%d", &n)
+		if n < 0 || n > 64 {
+			return nil, false
+		}
+		elems, ok := arrayElems(t.L[3], n)
+		if !ok {
+			return nil, false
+		}
+		out := append([]byte{0x40}, varUint(n)...)
+		for _, e := range elems {
+			b, ok := encodeVMItem(e)
+			if !ok {
+				return nil, false
+			}
+			out = append(out, b...)
+		}
+		return out, true
+	case strings.HasPrefix(h, "mk"):
+		out := append([]byte{0x41}, varUint(len(t.L)-1)...)
+		for _, f := range t.L[1:] {
+			b, ok := encodeVMItem(f)
+			if !ok {
+				return nil, false
+			}
+			out = append(out, b...)
+		}
+		return out, true
+	case h == "let":
+		return nil, false
+	}
+	return nil, false
 }
